@@ -48,6 +48,13 @@ CHECKS = {
         "before the real run (tree must stay unchanged), summaries are compared, and for remove/link the printed script is executed by bash on a restored copy and the final trees compared.",
    note="trees equal up to inode numbering and temp names; comparisons skipped when a command of the real run failed",
    tech="TLC model checking of the printer + metamorphic replay (dry-run script through bash vs real run)"),
+ "C04": dict(cat="model_checking", sec="5 C04",
+   text="StaleReport.tla models the time line (reads of `group`, report timestamp, user edits at any point from the first read of a member until the dedupe inspection, the dedupe "
+        "decision) and TLC checks NoChangedDataLost for all histories of <= 2 edits - it fails when the timestamp is taken after the reads and holds when it is taken at the start, "
+        "which is what located the defect repaired by the fix commit. TLC enumerates the histories that are replayed on the real binary: edits during the `group` run are placed by "
+        "the shim after the k-th close of the member, edits between the runs by the driver; ContentKept (DedupeObs.tla) is evaluated by TLC on the inventories at inspection / after.",
+   note="30 ms guard gaps around every edit; ordinary writes only; three time zones",
+   tech="TLC model checking of the time line + TLC-enumerated edit histories replayed on the real binary with shim-placed edits"),
 }
 
 def main():
